@@ -188,14 +188,14 @@ def c18_menu(seed, run, tier, k):
     return spec
 
 
-def c18_interrupt_sweep(seed, run, tier):
+def c18_interrupt_sweep(seed, run, tier, prop="C18", base_profile=None):
     """Crash-point sweep: one cold request is interrupted (KeyboardInterrupt / MemoryError raised at the n-th
     line event inside verif's own code) at positions stratified over its whole execution, each time on a
     freshly built dataset object on the same inputs, and followed by the sibling requests for every input.
     Whatever the interrupted request left in the caches, the later answers must be those of a fresh dataset."""
-    prof = dict(gen_data.PROFILE_C18, n_inputs=(2, 4), faults=[], p_aux=0.0, p_interrupt=0.0)
-    spec = gen_data.gen_spec("C18", seed, run, tier, prof)
-    rng = prng.stream(seed, "C18", run, "interrupt-sweep")
+    prof = dict(base_profile or gen_data.PROFILE_C18, n_inputs=(2, 4), faults=[], p_aux=0.0, p_interrupt=0.0)
+    spec = gen_data.gen_spec(prop, seed, run, tier, prof)
+    rng = prng.stream(seed, prop, run, "interrupt-sweep")
     info = gen_data.world_info(spec["world"])
     script = []
     for _ in range(6):
@@ -527,6 +527,13 @@ def c01_gen(seed, run, tier):
         return c01_cli_gen(seed, run, tier)
     if run % 10 == 4:
         return c01_knock_gen(seed, run, tier)
+    if run % 20 == 7:
+        # crash-point sweep (DESIGN 10.2): one cold request interrupted at positions stratified over its execution,
+        # each on a fresh dataset object, followed by the sibling requests for every input - agreement and
+        # membership must hold for whatever the interrupted request left in the caches
+        spec = c18_interrupt_sweep(seed, run, tier, "C01", dict(PROFILE_C01, p_dim_agg=0.0))
+        spec["twin"] = None
+        return spec
     spec = gen_data.gen_spec("C01", seed, run, tier, PROFILE_C01)
     trng = prng.stream(seed, "C01", run, "twin")
     n = len(spec["world"]["inputs"])
